@@ -188,9 +188,14 @@ fn(H2 + "._create_stream", params={"request": "obj h2.events:RequestReceived"}, 
        ("C01.h2.request.wiring", "same(call_args('Stream.handle')[0].app, self.app) and same(call_args('Stream.handle')[0].client, self.client) and same(call_args('Stream.handle')[0].server, self.server) "
         "and call_args('Stream.handle')[0].stream_id == request.stream_id "
         "and call_args('Stream.handle')[0].scheme == (('wss' if self.ssl else 'ws') if isinstance(call_args('Stream.handle')[0], WSStream) else ('https' if self.ssl else 'http'))", "C01"),
+       # C11 "an upgrade is attempted only for ... HTTP/2 extended CONNECT with version 13": a request
+       # is handed to a WebSocket stream only if it is an extended CONNECT for the websocket
+       # protocol (RFC 8441: :protocol = websocket); finding F11c: every CONNECT is
+       ("C11.h2.ws-only-extended-connect", "implies(isinstance(call_args('Stream.handle')[0], WSStream), pseudo(request.headers, b':method').decode('ascii').upper() == 'CONNECT' "
+        "and pseudo(request.headers, b':protocol') == b'websocket')", "C11"),
        ("C18.mark.on-arrival", "count_calls('WorkerContext.mark_request') == 1", "C18,C15"),
        ("C18.ka.h2.counted", "self.keep_alive_requests >= old(self.keep_alive_requests) + 1", "C18")],
-   props=("C04", "C01", "C18"))
+   props=("C04", "C01", "C18", "C11"))
 
 fn(H2 + "._window_updated", params={"stream_id": "opt int"}, task="reader",
    loops={0: {"invariant": [
